@@ -27,6 +27,17 @@ def step (s : St) (line : String) : St × String :=
     let (s1, o1) := get s k.toNat!
     let (s2, o2) := add s1 k.toNat! p.toNat!
     (s2, outStr o1 ++ "+" ++ outStr o2 ++ cacheStr s2)
+  | ["rpar", k, p] =>
+    -- an addition held inside its datastore write and a concurrent query: whatever the concurrent query saw, the
+    -- query made after both have returned serves the provider
+    let (s1, o1) := add s k.toNat! p.toNat!
+    let (s2, _) := get s1 k.toNat!
+    let (s3, o3) := get s2 k.toNat!
+    (s3, outStr o1 ++ "+" ++ outStr o3 ++ cacheStr s3)
+  | ["rparclose", k, p] =>
+    let (s1, o1) := add s k.toNat! p.toNat!
+    let s2 := close s1
+    (s2, outStr o1 ++ "+ok" ++ cacheStr s2)
   | ["parclose", k] =>
     let (s1, o1) := get s k.toNat!
     let s2 := close s1
